@@ -482,6 +482,19 @@ def term_needs_complex(spec, term):
     return term["f"][1] != 0
 
 
+def disambiguate(term):
+    """Op.product joins symbols with blanks and the library parses the substring 'b^\\dagger + b' as ONE symbol; a spin '+'
+    written between 'b^\\dagger' and 'b...' of other picks would therefore be mis-parsed (AssertionError / ValueError in
+    Op.__init__).  Such a spelling is not a valid way to write the product: move every pick that starts with '+' to the
+    front of the term (generation-time normalisation, the spec stays self-consistent)."""
+    ops = term["ops"]
+    plus = [o for o in ops if o[1] == "+" or o[1].startswith("+ ")]
+    if plus:
+        rest = [o for o in ops if not (o[1] == "+" or o[1].startswith("+ "))]
+        term["ops"] = plus + rest
+    return term
+
+
 @st.composite
 def term_tables(draw, spec, min_terms=1, max_terms=12, real_only=False, max_support=4, decades=3):
     """term list with the structure knobs: duplicates, partially cancelling copies, shared prefixes/suffixes
@@ -521,7 +534,7 @@ def term_tables(draw, spec, min_terms=1, max_terms=12, real_only=False, max_supp
                 flags.add("explicit_identity")
         else:
             t = draw(one_term(spec, real_only, max_support, decades))
-        terms.append(t)
+        terms.append(disambiguate(t))
     return terms, sorted(flags)
 
 
@@ -659,7 +672,7 @@ def charged_term(draw, spec, charge, blocks=None, real_only=False, decades=1):
         sidx = ops[idx][0]
         seq.append(bysite[sidx][cursor[sidx]])
         cursor[sidx] += 1
-    return {"f": draw(factors(real_only, decades)), "ops": seq}, tuple(int(x) for x in charge)
+    return disambiguate({"f": draw(factors(real_only, decades)), "ops": seq}), tuple(int(x) for x in charge)
 
 
 def reachable_charges(spec):
